@@ -122,3 +122,34 @@ def same_dense(a, b, rtol=0.0):
     if rtol:
         eq = eq | ((a64 - b64).abs() <= rtol * torch.maximum(a64.abs(), b64.abs()).clamp_min(1e-30))
     return bool(eq.all())
+
+
+def unit_family(rng):
+    """Two representations (vaxis, paxes) of ONE index type that is a product of components among: an atom (a physical axis), a
+    one-hot component of a two-component sum (`b + () + a`, a non-physical factor of 2 elements) and the one-element sum `(1)`, whose
+    inhabitant `0 + () + 0` may be spelt out or be left out (the unit axis inhabits it too and vanishes from a product).  The two
+    representations differ only in which one-element factors are spelt out: same type, same shape, overlapping patterns."""
+    from fggs.indices import SumAxis, unitAxis, productAxis
+    while True:
+        comps = [rng.choice([('atom', 2), ('atom', 3), ('onehot', 0, 1), ('onehot', 1, 0), ('one',), ('one',)]) for _ in range(rng.randint(2, 4))]
+        if any(c[0] == 'one' for c in comps) and any(c[0] != 'one' for c in comps):
+            break
+    hot = [rng.random() < 0.8 for _ in comps]      # the second representation sits in the same one-hot components most of the time
+    def rep(keep, which):
+        fac, pax = [], []
+        for i, c in enumerate(comps):
+            if c[0] == 'atom':
+                k = PhysicalAxis(c[1]); pax.append(k); fac.append(k)
+            elif c[0] == 'onehot':
+                b, a = (c[1], c[2]) if (which == 0 or hot[i]) else (c[2], c[1])
+                fac.append(SumAxis(b, unitAxis, a))
+            elif keep[i]:
+                fac.append(SumAxis(0, unitAxis, 0))
+        return productAxis(fac), tuple(pax)
+    k1 = [rng.random() < 0.5 for _ in comps]
+    k2 = [rng.random() < 0.5 for _ in comps]
+    if k1 == k2:
+        j = rng.choice([i for i, c in enumerate(comps) if c[0] == 'one'])
+        k2[j] = not k2[j]
+    (e, pe), (f, pf) = rep(k1, 0), rep(k2, 1)
+    return e, pe, f, pf
